@@ -62,10 +62,13 @@ Inits ==
              gi \in Ty, go \in {"any", "str", "iface"}, n \in N1Mid, m \in N2Mid}
     [] Fam = "seq" ->    \* C20: whole call sequences with every kind of violation
          {<<Hdr("graph", "str", "str", FALSE), <<>>>>}
+    [] Fam = "seqp" ->   \* the same on top of a well-formed graph: a violation (or a cycle, a duplicate ...) at the end of a valid construction
+         {<<Hdr("graph", "str", "str", FALSE), <<Plain("n1", "str", "str", "str"), Plain("n2", "str", "str", "str"), EdgeOp(START, "n1", ""), EdgeOp("n1", END, "")>>>>}
     [] Fam = "seqs" ->   \* the same with graph state (state handlers legal)
          {<<Hdr("graph", "str", "str", TRUE), <<Plain("n1", "str", "str", "str")>>>>}
     [] Fam = "wf" ->     \* workflow front end: field mappings, compiled twice
-         {<<Hdr("wf", "msa", "msa", FALSE), <<Plain("n1", i, "msa", "msa"), EdgeOp(START, "n1", "fm"), EdgeOp("n1", END, "fm")>>>> : i \in {"rec", "msa"}}
+         {<<Hdr("wf", "msa", "msa", FALSE), <<[Plain("n1", i, "msa", "msa") EXCEPT !.x = x], EdgeOp(START, "n1", "fm"), EdgeOp("n1", END, "fm")>>>> :
+             i \in {"rec", "msa"}, x \in {"", "sv"}}      \* x = "sv": the node also has a static value (workflow.go:436-476)
 
 FlowKeys == {"n1", "n2", "p1", "p2"}
 SeqKeys == {"n1", "p1"}
@@ -76,15 +79,15 @@ Alphabet(K) ==   \* K = keys declared so far
     [] Fam = "flow2" ->
          {EdgeOp(p[1], p[2], "") : p \in (K \cup {START}) \X (K \cup {END})}
          \cup {BranchOp(p[1], p[2], <<p[3], p[4]>>, p[5]) : p \in {q \in (K \cup {START}) \X Ty \X K \X (K \cup {END}) \X (K \cup {END}) : q[3] # q[4] /\ q[5] = q[3]}}
-    [] Fam \in {"seq", "seqs"} ->
+    [] Fam \in {"seq", "seqs", "seqp"} ->
          {Plain("n1", "str", "str", "str"), Plain("n2", "str", "int", "int"), Plain(START, "str", "str", "str"), PassOp("p1", "", ""), PassOp(END, "", ""),
           NodeOp("n2", "str", "str", "str", "pre", "str"), NodeOp("n2", "str", "str", "str", "post", "int"), PassOp("p1", "pre", "any"), PassOp("p1", "pre", "str")}
          \cup {EdgeOp(p[1], p[2], "") : p \in {START, "n1", "n2", "p1", "zz"} \X {END, "n1", "n2", "p1", "zz"}}
          \cup {BranchOp(p[1], "str", p[2], p[2][1]) : p \in {START, "n1", "p1", "zz"} \X {<<END>>, <<"n1", END>>, <<"p1", END>>, <<"n1", "zz">>, <<"n1", "p1">>}}
     [] Fam = "wf" -> {}
-CompileAlphabet == IF Fam \in {"seq", "seqs"} THEN {CompileOp("any", ""), CompileOp("all", ""), CompileOp("all", "maxsteps"), CompileOp("any", "maxsteps")}
+CompileAlphabet == IF Fam \in {"seq", "seqs", "seqp"} THEN {CompileOp("any", ""), CompileOp("all", ""), CompileOp("all", "maxsteps"), CompileOp("any", "maxsteps")}
                    ELSE {CompileOp("any", "")}
-PostAlphabet(K) == IF Fam \in {"seq", "seqs"} THEN Alphabet(K) \cup CompileAlphabet
+PostAlphabet(K) == IF Fam \in {"seq", "seqs", "seqp"} THEN Alphabet(K) \cup CompileAlphabet
                    ELSE IF Fam = "wf" THEN {CompileOp("any", "")}     \* (the workflow Add* calls return no error value)
                    ELSE {EdgeOp("n1", END, ""), PassOp("p9", "", ""), BranchOp(START, "any", <<"n1", END>>, END), CompileOp("any", "")}
 
@@ -202,15 +205,17 @@ Untyped == {k \in Declared : nodes[k].i = "nil"}
 DoCompile(op, j) ==
   LET err1 == ~startN \/ ~endN \/ tv # {} \/ (FixD15 /\ Untyped # {})
       \* graph.go:673-685: one more pre-node converter per field-mapped target, appended to the map the runners share
-      pre2 == IF FixD7 /\ compiled THEN preNode ELSE [k \in AllKeys |-> IF k \in fmk THEN preNode[k] + 1 ELSE preNode[k]]
+      pre2 == IF FixD7 THEN preNode ELSE [k \in AllKeys |-> IF k \in fmk THEN preNode[k] + 1 ELSE preNode[k]]
+      \* workflow.go:436-447: a static value's path is recorded as mapped by the first Compile, a later Compile finds it taken
+      sv == hdr.fe = "wf" /\ compiled /\ \E i \in 1..Len(hist) : hist[i].op = "node" /\ hist[i].x = "sv"
       res == IF berr # 0 THEN "S"
-             ELSE IF FixD7 /\ compiled THEN "C"
+             ELSE IF sv THEN "E"
              ELSE IF err1 THEN "E"
              ELSE IF op.m = "all" /\ ~DagOK THEN "E"
              ELSE IF Untyped # {} THEN "P"               \* graph.go:809-811 dereferences the nil genericHelper of an untyped node
              ELSE IF op.m = "all" /\ op.x = "maxsteps" THEN "E"
              ELSE "ok"
-      mutates == berr = 0 /\ ~(FixD7 /\ compiled) /\ ~err1
+      mutates == berr = 0 /\ ~sv /\ ~err1
   IN /\ preNode' = IF mutates THEN pre2 ELSE preNode
      /\ compiled' = (compiled \/ res = "ok")
      /\ snap' = IF res = "ok" /\ ~snap.set THEN [set |-> TRUE, mayE |-> mayE, brmay |-> Handlers.brmay, preNode |-> pre2] ELSE snap
